@@ -126,7 +126,11 @@ type Pred struct {
 }
 
 func newContractSet() *ContractSet {
-	return &ContractSet{Aliases: map[string]string{}, Funcs: map[string]*Contract{}, Ghosts: map[string]*GhostField{}, TypeInvs: map[string][]*TypeInv{}, Consts: map[string]ast.Expr{}, Defines: map[string]*Define{}, Preds: map[string]*Pred{}}
+	return &ContractSet{Aliases: map[string]string{}, Funcs: map[string]*Contract{}, Ghosts: map[string]*GhostField{
+		// built-in ghost state of channels (instr.go: chanSend / chanClose)
+		"chclosed": {Type: "chan", Name: "chclosed", Sort: SBool},
+		"chsent":   {Type: "chan", Name: "chsent", Sort: SInt},
+	}, TypeInvs: map[string][]*TypeInv{}, Consts: map[string]ast.Expr{}, Defines: map[string]*Define{}, Preds: map[string]*Pred{}}
 }
 
 var keywordRe = regexp.MustCompile(`^(alias|assume|boxednonnil|pred|func|extern|interface|ghost|smt|typeinv|const|define|requires|ensures|onpanic|returns|recovers|mayfail|implconv|ghostvar|after|loop|assigns|panics|pure|trusted|refines|at|inline)\b`)
